@@ -76,8 +76,8 @@ def remap(op, off):
 class C12(Scenario):
     pid = "C12"
     arms = {
-        "quick": [("uniform", 4), ("digit-boundary", 4), ("multi-mesh", 3), ("salt", 4), ("warm", 2), ("shared-measure", 3), ("faulty-noise", 2), ("demo", 1), ("probe", 4), ("restart", 3)],
-        "thorough": [("uniform", 4), ("digit-boundary", 4), ("multi-mesh", 3), ("salt", 4), ("warm", 2), ("shared-measure", 3), ("faulty-noise", 3), ("demo", 1), ("deep", 2), ("probe", 4), ("restart", 3)],
+        "quick": [("uniform", 4), ("digit-boundary", 4), ("multi-mesh", 3), ("salt", 4), ("warm", 2), ("shared-measure", 3), ("faulty-noise", 2), ("demo", 1), ("probe", 4), ("restart", 3), ("low-stack", 1)],
+        "thorough": [("uniform", 4), ("digit-boundary", 4), ("multi-mesh", 3), ("salt", 4), ("warm", 2), ("shared-measure", 3), ("faulty-noise", 3), ("demo", 1), ("deep", 2), ("probe", 4), ("restart", 3), ("low-stack", 1)],
     }
     runs = {"quick": 4000, "thorough": 80000}
     wall = {"quick": 75, "thorough": 1300}
@@ -399,7 +399,13 @@ class C12(Scenario):
         # second build in the same process
         if arm in ("warm", "shared-measure") or rng.random() < 0.3:
             units.append({"k": "again", "n": rng.randrange(len(nodes))})
-        return {"nodes": nodes, "units": units}
+        plan = {"nodes": nodes, "units": units}
+        if arm == "low-stack":
+            # one perturbed node builds the program with little interpreter stack left (a
+            # caller deep inside its own code): every op either fails loudly or gives the
+            # same object
+            plan["lowstack"] = {str(rng.randrange(1, len(nodes))): rng.choice([12, 16, 20, 25, 30, 40, 60, 100])}
+        return plan
 
     # ------------------------------------------------------------------ expansion
     def expand(self, plan):
@@ -410,7 +416,8 @@ class C12(Scenario):
             k = u["k"]
             if k in ("P", "obs"):
                 for n in range(nn):
-                    steps.append([n, u["op"]])
+                    ls = (plan.get("lowstack") or {}).get(str(n))
+                    steps.append([n, u["op"] if ls is None or k == "obs" else ["lowstack", ls, u["op"]]])
                     uos.append(ui)
                     tags.append(0)
             elif k == "noise":
@@ -446,7 +453,7 @@ class C12(Scenario):
         nodes = plan["nodes"]
         res = {}  # obs unit -> list of (node, pass, result)
         faults = {"interrupt": {"configured": 0, "fired": 0}, "memerr": {"configured": 0, "fired": 0}, "stack": {"configured": 0, "fired": 0}}
-        probes = {"noise_ops": 0, "noise_aborted_naturally": 0, "torn_tables_after_stack_fault": 0, "obs_total": 0, "obs_on_perturbed_node": 0, "again_builds": 0, "program_op_failed_somewhere": 0, "restarts": 0, "restart_incomplete": 0}
+        probes = {"noise_ops": 0, "noise_aborted_naturally": 0, "torn_tables_after_stack_fault": 0, "obs_total": 0, "obs_on_perturbed_node": 0, "again_builds": 0, "program_op_failed_somewhere": 0, "restarts": 0, "restart_incomplete": 0, "lowstack_op_ran_out_of_stack": 0}
         torn = set()
         incomplete = set()
         pfail = {}
@@ -484,6 +491,10 @@ class C12(Scenario):
             elif k == "P":
                 if "ok" not in r:
                     pfail.setdefault(ui, set()).add(node)
+                    if op[0] == "lowstack" and r.get("raised") == "RecursionError":
+                        # a loud failure: this node did not build the same program
+                        incomplete.add(node)
+                        probes["lowstack_op_ran_out_of_stack"] = probes.get("lowstack_op_ran_out_of_stack", 0) + 1
         probes["program_op_failed_somewhere"] = len(pfail)
         probes["again_builds"] = sum(1 for u in units if u["k"] == "again")
         viols = []
@@ -501,7 +512,7 @@ class C12(Scenario):
                     continue
                 if n in incomplete:
                     continue
-                pert = nodes[n]["salt"] != nodes[0]["salt"] or bool(nodes[n].get("init")) or t == 1 or any(u["k"] in ("noise", "restart") and u.get("n") == n for u in units)
+                pert = nodes[n]["salt"] != nodes[0]["salt"] or bool(nodes[n].get("init")) or t == 1 or str(n) in (plan.get("lowstack") or {}) or any(u["k"] in ("noise", "restart") and u.get("n") == n for u in units)
                 if pert:
                     probes["obs_on_perturbed_node"] += 1
                     nontrivial = True
@@ -556,6 +567,8 @@ class C12(Scenario):
                     parts.add("probe:" + (op[2] if op[0] in ("obs", "call") else op[0]))
                 else:
                     parts.add("noise")
+        if str(n) in (plan.get("lowstack") or {}):
+            parts.add("low-stack")
         for u in plan["units"]:
             if u["k"] == "restart" and u.get("n") == n:
                 parts.add("restart" if u.get("salt") in (None, nodes[n]["salt"] if n < len(nodes) else None) else "restart-other-salt")
